@@ -115,6 +115,7 @@ class SimRec(S.Recorder):
         self.reads = readable(item)
         self.fills = []          # effective executions, in execution order (C12)
         self.hooks = []          # position hooks: name, minute, price seen, inside-chunk-gap flag (C12 classification)
+        self.cread = []          # what a candle-reading policy read: minute, timeframe, value (C12)
         self.cand = None         # the raw input series (research.backtest works on a deep copy)
         self.chunk = 1
 
@@ -204,6 +205,57 @@ class SimRec(S.Recorder):
             self.hooks.append({'h': hook, 't': tmin(st.time), 'p': hx(st.price), 'ig': ig})
 
 
+def make_candle_policy(item, rec):
+    """policy family whose ENTRY decisions are functions of the candles the strategy can read (trading timeframe and every
+    data route): whether to enter at all and where the entry rows are placed depend on open/high/low/close of the last
+    two rows of each readable timeframe.  Still a deterministic function of observables only."""
+    base = S.make_policy_strategy(item['policy'], observe=rec.observe)
+    tfs = []
+    for tf in [item['ttf']] + list(item.get('dtfs', [])):
+        if tf not in tfs:
+            tfs.append(tf)
+
+    class CandlePolicy(base):
+        def _read(self):
+            tot = 0
+            for tf in tfs:
+                try:
+                    c = self.get_candles(self.exchange, self.symbol, tf)
+                    v = int(round(float(c[-2:, 1:5].sum()))) if len(c) else 0
+                except Exception as e:          # e.g. a bigger timeframe before its first candle
+                    v = -1
+                rec.cread.append({'t': tmin(self.time), 'tf': tf, 'v': v})
+                tot += v
+            return tot
+
+        def should_long(self):
+            if not super().should_long():
+                return False
+            self._v = self._read()
+            return self._v % 3 != 0
+
+        def should_short(self):
+            if not super().should_short():
+                return False
+            self._v = self._read()
+            return self._v % 3 != 1
+
+        def _shift(self, rows):
+            k = (getattr(self, '_v', 0) // 3) % 3 - 1
+            tick = self.POLICY['tick']
+            return [(q, p + k * tick) for q, p in rows]
+
+        def go_long(self):
+            super().go_long()
+            self.buy = self._shift(self.buy)
+
+        def go_short(self):
+            super().go_short()
+            self.sell = self._shift(self.sell)
+
+    return CandlePolicy
+
+
 def routes_of(item):
     routes = [{'symbol': SYMS[si], 'timeframe': item['ttf']} for si in range(item['nsym'])]
     data = [{'symbol': SYMS[si], 'timeframe': tf} for si in range(item['nsym']) for tf in item.get('dtfs', [])]
@@ -221,12 +273,14 @@ def run_item(item):
     try:
         routes, data = routes_of(item)
         out = S.run_backtest(item['policy'], config_of(item), cand, routes=routes, data_routes=data,
-                             fast=(item['mode'] == 'fast'), observe=rec.observe, warmup=warm)
+                             fast=(item['mode'] == 'fast'), observe=rec.observe, warmup=warm,
+                             strategy_cls=(make_candle_policy(item, rec) if item.get('candle_policy') else None))
     except HarnessTimeout:
         out = {'exc': 'HarnessTimeout: the backtest did not finish within %d s' % RUN_TIMEOUT, 'final': None}
         del rec.seq[5000:]
         del rec.fills[5000:]
         del rec.hooks[5000:]
+        del rec.cread[20000:]
     finally:
         signal.alarm(0)
         signal.signal(signal.SIGALRM, old)
@@ -244,7 +298,7 @@ def run_item(item):
     for name, a in sorted((fin.get('accts') or {}).items()):
         for asset, v in sorted(a['assets'].items()):
             bal.append([asset, hx(v)])
-    return {'seq': rec.seq, 'fills': rec.fills, 'hooks': rec.hooks, 'trades': trades, 'bal': bal,
+    return {'seq': rec.seq, 'fills': rec.fills, 'hooks': rec.hooks, 'reads': rec.cread, 'trades': trades, 'bal': bal,
             'liq': int(fin.get('liquidations', 0) or 0), 'exc': exc, 'exc_text': (out['exc'] or '')[:200],
             'n_orders': rec.n_orders, 'capture_error': fin.get('capture_error', '')}
 
